@@ -165,6 +165,7 @@ impl<'a> Gen<'a> {
         }
         let nspell = rng.range(1, 4);
         let spellings: Vec<usize> = (0..nspell).map(|_| rng.below(SPELLINGS)).collect();
+        let use_shadows = rng.chance(1, 3);
         let fault_focused = rng.chance(1, 2);
         let plain_seq = batch == Batch::Main && rng.chance(3, 20);
         let nthreads = if plain_seq {
@@ -197,8 +198,16 @@ impl<'a> Gen<'a> {
             let ss = self.schemas_of(d);
             let q = *rng.pick(&qs);
             let s = *rng.pick(&ss);
-            let qp = self.tree.spell(&q.dir, &q.file, *rng.pick(&spellings));
-            let sp = self.tree.spell(&s.dir, &s.file, *rng.pick(&spellings));
+            let mut qp = self.tree.spell(&q.dir, &q.file, *rng.pick(&spellings));
+            let mut sp = self.tree.spell(&s.dir, &s.file, *rng.pick(&spellings));
+            if use_shadows && rng.chance(1, 4) {
+                if rng.chance(1, 2) {
+                    qp = self.tree.shadow(&q.dir, &q.file, rng.below(2));
+                } else {
+                    sp = self.tree.shadow(&s.dir, &s.file, rng.below(2));
+                }
+                labels.push("shadow-file".into());
+            }
             let ps = *rng.pick(&palette_seeds);
             let opts = if ps == 0 {
                 json!({})
